@@ -764,6 +764,11 @@ where
             TsType::TsParenthesizedType(TsParenthesizedType { type_ann, .. }) => {
                 self.resolve_string_or_union_strings(type_ann)
             }
+            // `never` is the empty union: `Omit<T, never>` omits nothing
+            TsType::TsKeywordType(TsKeywordType {
+                kind: TsKeywordTypeKind::TsNeverKeyword,
+                ..
+            }) => vec![],
             _ => {
                 HANDLER
                     .with(|handler| handler.span_err(ty.span(), "Unsupported type as index key."));
